@@ -27,6 +27,8 @@ CONSTANTS
   Groups,         \* trace: set of [kernel, case, variant, indexmaps, noncontig, p2sprefix, runs : set of run records]
   Glue,           \* trace: set of glue records (see GlueOK)
   FlagArgs,       \* from the glue (c/_phonopy.cpp signatures): set of <<kernel, name of an integer / bool / char* scalar argument>>
+  TwoPass,        \* trace: set of two-pass records of the dense shortest-vector kernel (see TwoPassOK)
+  NoiseClasses,   \* near-tie classes: set of <<crystal, noise index, tolerance index>> the harness must cover
   Divergent       \* from the sources: set of [site, kernels] - code compiled only with / only without _OPENMP and the kernels reaching it
 
 VARIABLES phase, cfg, grp
@@ -99,10 +101,44 @@ LimitCovered ==
      /\ \E g \in Groups : g.kernel = "recip_dipole_dipole" /\ g.gllimit /\ g.variant = "random"
 
 -----------------------------------------------------------------------------
+(* Two-pass contract of gsv_set_smallest_vectors_dense.  The Python layer    *)
+(* calls the kernel twice with identical inputs: a counting pass             *)
+(* (initialize = 1) fills multiplicity[pair] = <<count, address>>, then it   *)
+(* allocates sum(count) rows and calls the filling pass (initialize = 0).    *)
+(* Both passes must apply the SAME selection rule, else the filling pass     *)
+(* writes outside the array it was given.  Judged on logged values of a      *)
+(* guard-padded replay of both passes on structures whose equidistant images *)
+(* are split by noise of 0.01 .. 3 times the tolerance (and on the exact     *)
+(* crystal, noise class 0), for two tolerances:                              *)
+(*   count1[p]  count reported by the counting pass for pair p               *)
+(*   addr1[p]   address reported by the counting pass                        *)
+(*   fill2[p]   rows the filling pass writes for pair p (kernel on that pair)*)
+(*   filltotal  rows the filling pass writes for the whole input             *)
+(*   alloc      rows the Python layer allocates (= sum of count1)            *)
+RECURSIVE SumTo(_, _)
+SumTo(sq, n) == IF n = 0 THEN 0 ELSE sq[n] + SumTo(sq, n - 1)
+TwoPassOK(e) ==
+  /\ Len(e.count1) = Len(e.fill2) /\ Len(e.addr1) = Len(e.count1)
+  /\ \A p \in 1..Len(e.count1) : e.count1[p] >= 1 /\ e.fill2[p] = e.count1[p]
+  /\ \A p \in 1..Len(e.count1) : e.addr1[p] = SumTo(e.count1, p - 1)
+  /\ e.alloc = SumTo(e.count1, Len(e.count1))
+  /\ e.filltotal = e.alloc
+  /\ e.guards1 /\ e.guards2
+(* vacuity: every noise class is present on every build, and the noise does  *)
+(* split ties somewhere (some record's counts differ from the exact crystal) *)
+TwoPassCovered ==
+  /\ \A b \in {"omp", "serial"} : \A c \in NoiseClasses :
+        \E e \in TwoPass : e.build = b /\ <<e.crystal, e.noise, e.sp>> = c
+  /\ \E e \in TwoPass, x \in TwoPass :
+        x.noise = 0 /\ e.noise # 0 /\ x.crystal = e.crystal /\ x.sp = e.sp /\ x.build = e.build
+        /\ x.count1 # e.count1
+
+-----------------------------------------------------------------------------
 (* Plan: enumerate the matrix (spec -> code); Check: judge groups            *)
 Init == \/ /\ phase = "plan" /\ cfg \in RunKeys /\ grp = <<>>
         \/ /\ phase = "check" /\ cfg = <<>> /\ grp \in Groups
         \/ /\ phase = "glue" /\ cfg = <<>> /\ grp \in Glue
+        \/ /\ phase = "twopass" /\ cfg = <<>> /\ grp \in TwoPass
         \/ /\ phase = "cover" /\ cfg = <<>> /\ grp = <<>>
 Next == UNCHANGED vars
 Spec == Init /\ [][Next]_vars
@@ -141,6 +177,8 @@ FlagCellsCovered ==
 DivergentCovered ==
   \A d \in Divergent : \A k \in d.kernels \cap Kernels :
      \E g \in Groups : g.kernel = k /\ {"omp", "serial"} \subseteq {r.build : r \in g.runs}
+ImplTwoPassContract       == (phase = "twopass") => TwoPassOK(grp)
+ImplTwoPassCovered        == (phase = "cover") => TwoPassCovered
 ImplFlagCellsCovered      == (phase = "cover") => FlagCellsCovered
 ImplDivergentCovered      == (phase = "cover") => DivergentCovered
 =============================================================================
